@@ -275,6 +275,15 @@ def case(draw):
         c = list(g["coordinates"])
         c.insert(draw(st.integers(0, len(c))), c[draw(st.integers(0, len(c) - 1))])
         g = {"type": g["type"], "coordinates": c, "meta": g["meta"]}
+    if g["type"] == "MultiLineString" and draw(st.integers(0, 3)) == 0:
+        # a further line that starts exactly where one of the lines ends (a call traced in two strokes): still one more part
+        c = list(g["coordinates"])
+        end = c[draw(st.integers(0, len(c) - 1))][-1]
+        step = g["meta"]["ts"] / 8 if g["meta"].get("ts") else 0.125
+        nxt = [list(end), [end[0] + step, end[1]]]
+        if nxt[1][0] > nxt[0][0]:
+            c.insert(draw(st.integers(0, len(c))), nxt)
+            g = {"type": g["type"], "coordinates": c, "meta": g["meta"]}
     return {"g": g, "dt": draw(st.sampled_from([0.5, 10.0, 1024.0]))}
 
 
